@@ -5316,7 +5316,11 @@ class LoopSum(Loop):
         return loop_sum(_takediag(self.func, axis1, axis2), self.index)
 
     def _take(self, index, axis):
-        return loop_sum(_take(self.func, index, axis), self.index)
+        # If `index` depends on `self.index`, e.g. because this loop has been
+        # moved inside another loop over the same index, then taking inside the
+        # loop would capture the outer index.
+        if self.index not in index.arguments:
+            return loop_sum(_take(self.func, index, axis), self.index)
 
     def _unravel(self, axis, shape):
         return loop_sum(unravel(self.func, axis, shape), self.index)
@@ -5500,7 +5504,7 @@ class LoopConcatenate(Loop):
             return Transpose.from_end(loop_concatenate(Transpose.to_end(_takediag(self.func, axis1, axis2), -2), self.index), -2)
 
     def _take(self, index, axis):
-        if axis < self.ndim-1:
+        if axis < self.ndim-1 and self.index not in index.arguments:
             return loop_concatenate(_take(self.func, index, axis), self.index)
 
     def _unravel(self, axis, shape):
